@@ -190,9 +190,28 @@ class P(Prop):
             "the flags read back, all_shortest_distances, prepare/prepared/has_prepared, sub_network followed by searches on the returned network that shares the Node objects; "
             "cut-offs none/0/.5/1/2/3/5; ids, the network's Node objects or fresh equal Node objects as arguments; a caller's dictionary passed repeatedly as output_dict), every answer "
             "checked against Floyd-Warshall on the graph as built so far. "
+            "Several (2-3) small networks alive at the same time with their calls interleaved. Every case is evaluated on freshly executed definitions of network.py / utils.py "
+            "(state kept at module, class or default-argument level cannot leak from one case to the next: a failing case fails in a fresh process). "
             "non-trivial = at least one ordered pair s != t is joined by a walk (graphs) / at least one pop (priority_dict, heapq) / a distance query after an edge was added (sessions)")
 
     def setup(self):
+        self.mods = nc.import_mods()
+
+    def fresh(self):
+        """Hermetic evaluation: every case runs on freshly executed definitions of the two anchored modules
+        (tracklib/core/utils.py, tracklib/core/network.py), so that state kept at module / class / default-argument
+        level by an earlier case cannot reach this one. A failing case therefore fails in a fresh process too
+        (`--replay`); state carried from one call or one Network object to the next is exercised INSIDE a case
+        (the sessions, the several cut-offs / prepares of a graph case, the `multi` cases with several networks)."""
+        import tracklib.core as C
+        import tracklib.core.utils as U
+        import tracklib.core.network as N
+        if getattr(self, "_code", None) is None:
+            # the sources are read and compiled once per process; executing them again re-creates every class and function
+            self._code = [compile(open(m.__file__).read(), m.__file__, "exec") for m in (U, N)]
+        exec(self._code[0], U.__dict__)
+        C.priority_dict = U.priority_dict
+        exec(self._code[1], N.__dict__)
         self.mods = nc.import_mods()
 
     # ---------------------------------------------------------------- generators
@@ -266,6 +285,15 @@ class P(Prop):
         # one Network object, a sequence of calls
         for _ in range(1200 if tier == "quick" else 20000):
             out.append(random_session(rng))
+        # two or three Network objects alive at the same time, their calls interleaved
+        for _ in range(300 if tier == "quick" else 5000):
+            subs = []
+            for _ in range(rng.choice([2, 2, 3])):
+                g = dict(nc.random_graph(rng, small=True), kind="rnd-small")
+                allc = nc.cuts_for(nc.floyd_warshall(g["n"], g["edges"]))
+                g["cuts"] = ["none"] + sorted({nc.tok(c) for c in rng.sample(allc, min(2, len(allc)))}, key=Fraction)
+                subs.append(g)
+            out.append({"kind": "multi", "subs": subs})
         return out
 
     def describe(self, case):
@@ -273,6 +301,8 @@ class P(Prop):
             return {"kind": "pq", "pops": min(10, sum(1 for o in case["ops"] if o[0] == "p"))}
         if case["kind"] == "hq":
             return {"kind": "hq", "pops": min(10, sum(1 for o in case["ops"] if o[0] == "o")), "heapify": any(o[0] == "h" for o in case["ops"])}
+        if case["kind"] == "multi":
+            return {"kind": "multi", "networks": len(case["subs"])}
         if case["kind"] == "sess":
             ks = [o[0] for o in case["ops"]]
             first_q = next((i for i, k in enumerate(ks) if k not in "ne"), len(ks))
@@ -293,6 +323,8 @@ class P(Prop):
             return any(o[0] == "p" for o in case["ops"])
         if case["kind"] == "hq":
             return any(o[0] == "o" for o in case["ops"])
+        if case["kind"] == "multi":
+            return any(self.nontrivial(sub) for sub in case["subs"])
         if case["kind"] == "sess":
             seen_edge = False
             for o in case["ops"]:
@@ -414,14 +446,17 @@ class P(Prop):
         return out
 
     def impl(self, case):
-        if case["kind"] == "pq":
-            return self.impl_pq(case)
         if case["kind"] == "hq":
             return self.impl_hq(case)
+        self.fresh()
+        if case["kind"] == "pq":
+            return self.impl_pq(case)
         if case["kind"] == "sess":
             return self.impl_sess(case)
         if case["kind"] == "rnd-float":
             return self.impl_float(case)
+        if case["kind"] == "multi":
+            return self.impl_multi(case)
         n = case["n"]
         edges = nc.expand(case)
         dist = nc.floyd_warshall(n, edges)          # only to choose the cut-offs
@@ -443,8 +478,44 @@ class P(Prop):
                 out["prep"].append([[vtok(net.prepared_shortest_distance(s, t)) for t in range(n)] for s in range(n)])
         return out
 
+    def impl_multi(self, case):
+        """several Network objects alive at the same time, their calls interleaved cut-off by cut-off"""
+        subs = case["subs"]
+        outs, nets, cutss = [], [], []
+        with nc.time_limit(20):
+            for sub in subs:
+                nets.append(nc.build_network(self.mods, sub))
+                cuts = cut_tokens(sub, nc.floyd_warshall(sub["n"], nc.expand(sub)))
+                cutss.append(cuts)
+                outs.append({"cuts": cuts, "pairs": [], "lists": [], "all": [], "prep": []})
+            for ci in range(max(len(c) for c in cutss)):
+                for sub, net, cuts, out in zip(subs, nets, cutss, outs):
+                    if ci >= len(cuts):
+                        continue
+                    n, c = sub["n"], cuts[ci]
+                    kw = {} if c == "none" else {"cut": nc.pynum(c)}
+                    out["pairs"].append([[vtok(net.shortest_distance(s, t, **kw)) for t in range(n)] for s in range(n)])
+                    out["lists"].append([[vtok(x) for x in net.shortest_distance(s, **kw)] for s in range(n)])
+                    out["all"].append(sorted([k[0], k[1], vtok(v)] for k, v in net.all_shortest_distances(**kw).items()))
+            combos = [prep_combos(c) for c in cutss]
+            for k in range(max(len(c) for c in combos)):
+                for net, cb in zip(nets, combos):        # prepare on every network first …
+                    if k < len(cb):
+                        c1, c2 = cb[k]
+                        net.DISTANCES = None
+                        net.prepare(verbose=False, **({} if c1 == "none" else {"cut": nc.pynum(c1)}))
+                        if c2 != "-":
+                            net.prepare(verbose=False, **({} if c2 == "none" else {"cut": nc.pynum(c2)}))
+                for sub, net, cb, out in zip(subs, nets, combos, outs):     # … then read them all
+                    if k < len(cb):
+                        n = sub["n"]
+                        out["prep"].append([[vtok(net.prepared_shortest_distance(s, t)) for t in range(n)] for s in range(n)])
+        return {"subs": outs}
+
     # ---------------------------------------------------------------- model
     def requests(self, case):
+        if case["kind"] == "multi":
+            return [ln for sub in case["subs"] for ln in self.requests(sub)]
         if case["kind"] == "pq":
             init = ";".join("%d,%s" % (k, nc.tok(nc.num(p))) for k, p in case["init"]) or "_"
             ops = ";".join("p" if o[0] == "p" else "s,%d,%s" % (o[1], nc.tok(nc.num(o[2]))) for o in case["ops"]) or "_"
@@ -511,6 +582,13 @@ class P(Prop):
         return [[none_as if x == "none" else x for x in r.split(",")] for r in rows]
 
     def decode(self, case, replies):
+        if case["kind"] == "multi":
+            outs, i = [], 0
+            for sub in case["subs"]:
+                k = len(self.requests(sub))
+                outs.append(self.decode(sub, replies[i:i + k]))
+                i += k
+            return {"subs": outs}
         if case["kind"] == "pq":
             if replies[0] == "bad-request":
                 raise ValueError("bad-request")
@@ -600,6 +678,12 @@ class P(Prop):
             return None
         if case["kind"] == "sess":
             return self.spec_sess(case, out)
+        if case["kind"] == "multi":
+            for i, (sub, o) in enumerate(zip(case["subs"], out["subs"])):
+                m = self.spec(sub, o)
+                if m:
+                    return "network %d of %d alive at the same time: %s" % (i, len(case["subs"]), m)
+            return None
         if case["kind"] == "rnd-float":
             return self.spec_float(case, out)
         n = case["n"]
@@ -844,6 +928,17 @@ class P(Prop):
 
     # ---------------------------------------------------------------- shrinking / search
     def shrink(self, case):
+        if case["kind"] == "multi":
+            subs = case["subs"]
+            if len(subs) == 1:
+                yield subs[0]
+            for k in range(len(subs)):
+                if len(subs) > 1:
+                    yield dict(case, subs=subs[:k] + subs[k + 1:])
+            for k, sub in enumerate(subs):
+                for c in self.shrink(sub):
+                    yield dict(case, subs=subs[:k] + [c] + subs[k + 1:])
+            return
         if case["kind"] == "pq":
             for k in range(len(case["ops"])):
                 yield dict(case, ops=case["ops"][:k] + case["ops"][k + 1:])
@@ -878,7 +973,7 @@ class P(Prop):
             yield dict(case, cuts=cut_tokens(case, d))
 
     def mutate(self, case, rng):
-        if case["kind"] in ("pq", "hq", "sess"):
+        if case["kind"] in ("pq", "hq", "sess", "multi"):
             return
         c = nc.explicit(case)
         for k, e in enumerate(c["edges"]):
